@@ -370,3 +370,50 @@ Qed.
 Lemma globals_refine_from s t ops : frel (cs_vars s) t ->
   snd (run gstep s ops) = snd (run gspec t ops) /\ frel (cs_vars (fst (run gstep s ops))) (fst (run gspec t ops)).
 Proof. apply (run_sim gstep gspec (fun s t => frel (cs_vars s) t)). intros; apply gstep_sim; assumption. Qed.
+
+(* the projected runners walk through the same states as the public language *)
+Lemma run_gstep_fst s ops : fst (run gstep s ops) = cstate_after s ops.
+Proof. revert s; induction ops as [|o ops IH]; intros s; [reflexivity|]. rewrite run_cons. cbn [fst cstate_after]. rewrite IH, gstep_fst. reflexivity. Qed.
+Lemma run_nstep_fst s ops : fst (run nstep s ops) = cstate_after s ops.
+Proof. revert s; induction ops as [|o ops IH]; intros s; [reflexivity|]. rewrite run_cons. cbn [fst cstate_after]. rewrite IH, nstep_fst. reflexivity. Qed.
+
+(* the enumerating observers of the innermost Globals map: is_empty / iter *)
+Lemma frel_hd {X} (m : list (list (ident * X))) s k : frel m s -> alist_get k (hd [] m) = hd (fun _ => None) s k.
+Proof. intros [|f g m' s' Hf _]; cbn [hd alist_get]; auto. Qed.
+
+Lemma sort_alist_spec {X} (f : list (ident * X)) : NoDup (map fst f) ->
+  StronglySorted key_le (sort_alist f) /\ NoDup (map fst (sort_alist f)) /\
+  forall k v, In (k, v) (sort_alist f) <-> alist_get k f = Some v.
+Proof.
+  intros Hn. split; [apply sort_alist_sorted|]. split.
+  - eapply Permutation_NoDup; [|exact Hn]. apply Permutation_map. unfold sort_alist. apply sort_by_perm.
+  - intros k v. unfold sort_alist. rewrite sort_by_In. split; [apply alist_In_get; exact Hn|apply alist_get_In].
+Qed.
+
+Lemma globals_iter_hd vs : globals_iter vs = sort_alist (hd [] vs).
+Proof. destruct vs; reflexivity. Qed.
+Lemma globals_is_empty_hd vs : globals_is_empty vs = true <-> forall k, alist_get k (hd [] vs) = None.
+Proof.
+  unfold globals_is_empty. destruct vs as [|f up]; cbn [hd]; [split; reflexivity|].
+  destruct f as [|[k0 v0] f]; [split; reflexivity|]. split; [discriminate|].
+  intros H. specialize (H k0). cbn [alist_get] in H. rewrite str_eqb_refl in H. discriminate.
+Qed.
+
+Lemma globals_observers_lemma ops :
+  let top := hd gempty (fst (run gspec [gempty] ops)) in
+  (forall l, snd (cstep (cstate_after cinit ops) OVarIter) = RAttrs l ->
+     StronglySorted key_le l /\ NoDup (map fst l) /\ forall k v, In (k, v) l <-> top k = Some v) /\
+  (forall b, snd (cstep (cstate_after cinit ops) OVarIsEmpty) = RBool b -> (b = true <-> forall k, top k = None)).
+Proof.
+  intros top. assert (Hrel : frel (cs_vars (cstate_after cinit ops)) (fst (run gspec [gempty] ops))).
+  { rewrite <- run_gstep_fst. apply globals_refine_from. repeat constructor. }
+  assert (Htop : forall k, alist_get k (hd [] (cs_vars (cstate_after cinit ops))) = top k) by (intros k; apply frel_hd, Hrel).
+  pose proof (history_wf_lemma ops cinit cinit_wf) as [_ Hv].
+  assert (Hn : NoDup (map fst (hd [] (cs_vars (cstate_after cinit ops))))).
+  { destruct (cs_vars (cstate_after cinit ops)); cbn [hd map]; [constructor|]. inversion Hv; assumption. }
+  split.
+  - intros l. cbn [cstep snd]. intros [= <-]. rewrite globals_iter_hd.
+    destruct (sort_alist_spec _ Hn) as (H1 & H2 & H3). split; [exact H1|]. split; [exact H2|].
+    intros k v. rewrite H3, Htop. reflexivity.
+  - intros b. cbn [cstep snd]. intros [= <-]. rewrite globals_is_empty_hd. split; intros H k; [rewrite <- Htop|rewrite Htop]; apply H.
+Qed.
